@@ -15,8 +15,8 @@ CLAIMED = {
    text='Exhaustive table proof: for each scalar operator the result is the image set (kind, which input bound each output bound is the image of, well-formedness) on every kind, ordering of the bounds and sign class of the scalar, using only monotonicity axioms of an ordered field; interval-interval + / - and relative_to are compared per kind pair with the expected bound expressions or the documented panic.',
    note='A*0 for one-sided A outside the quantifier; relative_to bound placement relies on the cited monotonicity of (x-r)/r', ref='4/C13'),
  'C14': dict(tech='decision tables + who-may-construct inventory + summary composition',
-   text='Exhaustive tables for the four fallible constructors/conversions (Ok exactly for ordered bounds, documented errors otherwise), every accessor, projection and tuple/option/range conversion on every kind, round trips by composing summaries, kind predicates / is_degenerate / width, Clone identity and the Hash write sequence; plus an inventory rule that the two-sided variant is only built by the checked constructor, clones and arithmetic.',
-   note='ordered element types; == decided by its own table (D6); overridden provided trait methods reported', ref='4/C14'),
+   text='Exhaustive tables for the four fallible constructors/conversions (Ok exactly for ordered bounds, documented errors otherwise), every accessor, projection and tuple/option/range conversion on every kind, round trips by composing summaries, kind predicates / is_degenerate / width, Clone identity and the Hash write sequence; plus a who-may-construct rule: the two-sided variant is only built by the checked constructor, clones, arithmetic, or a function proven (over all weak orders of well-formed operands) to keep low <= high.',
+   note='ordered element types; == decided by its own table (D6); overridden provided trait methods and inherent methods shadowing a decided trait method are decided or reported', ref='4/C14'),
  'C15': dict(tech='decision table of partial_cmp + order axioms on the complete 6-chain table',
    text='Exhaustive: the partial_cmp/eq decision tables equal the table fixed by the statement on every kind pair and weak order; the axioms (Equal iff ==, Less iff separated, antisymmetry, transitivity, incomparability) are then checked on all pairs/triples of the 33 abstract intervals of a 6-point chain, which realises every relative position of up to six bounds.',
    note='total orders only', ref='4/C15'),
@@ -25,7 +25,7 @@ CLAIMED = {
    note='public enum variants can be built directly (outside the quantifier)', ref='4/C18'),
  'C19': dict(tech='boolean tables over opaque element relations + format_args templates joined with MIR argument order',
    text='Exhaustive: each approx impl, as a boolean function of the element relation on corresponding bounds (all truth assignments x 9 kind pairs), is the bound-wise conjunction with the tolerances passed through and false for mixed kinds; the three Display templates are exactly the canonical strings with plain Display placeholders bound to (low, high) in order.',
-   note='reflexivity/symmetry inherited from the approx contract on floats', ref='4/C19'),
+   note='reflexivity/symmetry inherited from the approx contract on floats; inherent methods named like an approx method (they win method-call syntax) are decided by the same table', ref='4/C19'),
  'C02': dict(tech='integer zone tables + rational-function normal form + counting-fold refinement + exactness (E9) of domain guards + sign certificates',
    text='Proof on the type-checked program: (i) the domain checks of ci_wilson / ci_z_normal are compared with the documented regions on every cell of the arrangement of their integer guards (finite abstract domain, complete); (ii) on the accepted region the Ok bounds are shown equal, as rational functions with sqrt and quantile atoms, to the Wilson centre -/+ span (independently: both vanish in the score polynomial) resp. the Wald formula, with the kind table; (iii) every front-end (ci, Stats::ci, ci_true, ci_if, FromIterator, extend, extend_if, add_success/failure) is a counting fold with the predicate polarity in the step obligation, and the ratio form passes round(r*n); (iv) is_significant equals its documented thresholds on every zone cell.',
    note='floats as reals for the formula; bounds within [0,1] decided over the reals by sign certificates; domain guards additionally required to be computed exactly (E9) and integer operations on the accepted path to be overflow-free on the domain; n >= 1 (n = 0 under C11); level in (0,1)', ref='4/C02'),
@@ -52,13 +52,13 @@ CLAIMED = {
    note='monotonicity of the external quantile functions in the level is a contract (C06); Wilson nesting in z and containment of k/n decided by sign certificates; quantile-rank containment decided under C03', ref='4/C10'),
  'C11': dict(tech='IEEE class/range abstract interpretation of every path condition of every entry point',
    text='For each of the 54 entry points, in dev-profile MIR with nothing assumed about inputs: every panic edge (overflow/bounds asserts, unwrap, panic!/assert!, external preconditions) is proved unreachable by the class/range domain or is in the documented table; every float bound of every Ok interval has an abstract value excluding NaN; the state-based producers return TooFewSamples for n < 2 and InvalidInputData for non-finite statistics.',
-   note='levels in [0.001, 0.9999]; statrs inverse_cdf finite on (0,1); two-sided results only through the checked constructor (C14); panics inside generic element operators not visible', ref='4/C11'),
+   note='levels in [0.001, 0.9999]; statrs inverse_cdf finite on (0,1); two-sided results only through the checked constructor or a function proven to keep low <= high (who-may-construct rule, decided here too); panics inside generic element operators not visible', ref='4/C11'),
  'C16': dict(tech='substitution identities (scaling, shift, negation) on the code terms by normal form',
    text='For the arithmetic, paired and unpaired producers, on both distribution branches and all kinds: b(t*x) = t*b(x), b(x+a) = b(x)+a (difference invariant for unpaired), b(-x) = -(opposite bound of the mirrored kind), as identities of rational functions with sqrt atoms; exact scaling by powers of two follows by the stated IEEE meta-theorem.',
    note='size of rounding differences for shift / reorder not decided; geometric / harmonic by composition with C05', ref='4/C16'),
  'C17': dict(tech='substitution k -> n-k on the Wilson / Wald summaries + score-root identity + sign certificates (nf.decide_sign_sqrt) + exactness of domain guards',
    text='The interval for n-k successes is the mirror image 1 - (interval for k) with upper and lower exchanged including the far ends (normal-form identity on the code terms); both Wilson bounds are roots of the score polynomial, the premise of the cited theorems.',
-   note='the analytic clauses (bounds in [0,1], midpoint, outward movement with z, narrower on (t n, t k), monotone in k through its implicit-function premises) are decided over the reals by sign certificates on the code terms; cited: d/dk >= 0 on real k implies monotone integer steps; accepted domain mirror-symmetric in floating point by exactness of the guards (E9)', ref='4/C17'),
+   note='the analytic clauses (bounds in [0,1], midpoint, outward movement with z, narrower on (t n, t k), monotone in k through its implicit-function premises) are decided over the reals by sign certificates on the code terms; cited: d/dk >= 0 on real k implies monotone integer steps; accepted domain mirror-symmetric in floating point by exactness of the guards (E9); integer operations behind an Ok result must be overflow-free on the domain', ref='4/C17'),
  'C20': dict(tech='compiler as checker over the feature matrix + derive-closure over the item graph',
    text='Each advertised feature set must type-check through the fact extractor (rustc is the decision procedure); under serde every type reachable through the fields of the public state types must have both derived serde impls and no data-dropping field attribute, which makes a round trip the field-wise identity.',
    note='losslessness of a concrete serialisation format on floats is a property of the serialiser', ref='4/C20'),
